@@ -224,7 +224,7 @@ def radio_call(ck, skip_defined=False):
                  clause="decays outside [0,10] km give exactly zero field in every bin")
         re_ = sym.ite_simplify(r.e)
         (lhs, rhs), _tab = prover.abstract_free([re_.xreplace({sy["showerEnergy"]: lam * sy["showerEnergy"]}), lam * re_], [sy["showerEnergy"], lam])
-        ck.prove("%s/lemma.energy_linear%s" % (qn, tag), [], sp.Eq(lhs, rhs), kind="lemma", search=lambda: native_radio(ck),
+        ck.prove("%s/lemma.energy_linear%s" % (qn, tag), [], sp.Eq(lhs, rhs), kind="lemma", search=lambda: native_linear(ck), replay=lambda m: native_linear(ck, m),
                  clause="the field (hence the SNR) is linear in the shower energy (energy-free sub-terms abstracted)")
         # finite: every division / arcsin / sqrt / arccos applied inside its domain for the in-range events
         cnt = {}
@@ -313,6 +313,47 @@ def native_batch(rng, n):
     pathLen = rng.uniform(600.0, 2500.0, n)
     E = 10 ** rng.uniform(-2, 2, n)
     return beta, altDec, lenDec, theta, pathLen, E
+
+
+def native_linear(ck, model=None):
+    """real EASRadio, same seeded random numbers: field(lam * E) == lam * field(E) at the solver's energy and factor (if it gives one) and on
+    a ladder of shower energies from 1e-6 to 1e8 (x 100 PeV): linearity has no range of validity in the statement"""
+    from nuspacesim.simulation.eas_radio.radio import EASRadio
+
+    rng = np.random.default_rng(ck.seed + 21)
+    cfg = radio_config()
+    batch = list(native_batch(rng, 16))
+    batch[1] = np.abs(batch[1]) % 10.0
+    batch[2] = batch[1] / np.sin(batch[0]) + 0.5
+    pairs = []
+    if model:
+        try:
+            e0, l0 = float(model.get("showerEnergy", 1.0)), float(model.get("lam", 3.0))
+            if np.isfinite(e0) and np.isfinite(l0) and e0 > 0 and l0 > 0:
+                pairs.append((e0, l0))
+        except (TypeError, ValueError):
+            pass
+    pairs += [(10.0 ** k, 3.0) for k in (-6, -3, 0, 2, 3, 4, 5, 8)]
+
+    def run_seeded(b):
+        with np.errstate(all="ignore"):
+            np.random.seed(ck.seed + 9)
+            return np.asarray(EASRadio(cfg)(*[x.copy() for x in b]), dtype=float)
+
+    n = 0
+    for e0, l0 in pairs:
+        b1, b2 = list(batch), list(batch)
+        b1[5], b2[5] = np.full(16, e0), np.full(16, e0 * l0)
+        try:
+            f1, f2 = run_seeded(b1), run_seeded(b2)
+        except Exception as ex:
+            return {"violated": True, "input": {"showerEnergy": e0, "factor": l0}, "observed": "raised %r" % ex, "clause": "the radio stage evaluates"}
+        n += 2
+        if not (np.all(np.isfinite(f1)) and np.any(f1 != 0) and np.allclose(f2, l0 * f1, rtol=1e-10, atol=0)):
+            j = int(np.argmax(np.abs(f2 - l0 * f1).max(axis=1)))
+            return {"violated": True, "input": {"showerEnergy (100 PeV)": e0, "factor": l0, "band": [30.0, 300.0], "seed": ck.seed + 9, "event": j},
+                    "observed": {"field(E)[:3]": f1[j][:3].tolist(), "field(factor*E)[:3]": f2[j][:3].tolist(), "factor*field(E)[:3]": (l0 * f1[j][:3]).tolist()}, "clause": "the field is linear in the shower energy"}
+    return {"violated": False, "evaluations": n}
 
 
 def native_radio(ck, model=None):
